@@ -18,16 +18,16 @@ mod verif_witness {
 		(a - b).abs() <= 1e-9 * (1.0 + a.abs() + b.abs())
 	}
 
-	// TSI(short = 1, long = 2) against the documented double smoothing, 3 steps
+	// TSI(short = 1, long = 2) against the documented double smoothing, 2 steps
 	#[kani::proof]
-	fn vk_tsi_recurrence_3steps() {
+	fn vk_tsi_recurrence_2steps() {
 		let x0 = small();
 		let mut m = TSI::new(1, 2, &x0).unwrap();
 		let (a_long, a_short) = (2.0 / 3.0, 1.0);
 		let (mut e11, mut e12, mut e21, mut e22) = (0.0f64, 0.0f64, 0.0f64, 0.0f64);
 		let mut last = x0;
 		let mut k = 0;
-		while k < 3 {
+		while k < 2 {
 			let x = small();
 			let mom = x - last;
 			last = x;
